@@ -104,6 +104,17 @@ chk("C02",
     "linear window are implementation-tier only; 'compiled = interpreted' is decided on the enumerated inputs.",
     "TLA+ kernel specs (Smoothing, SavGol, SmoothGrid) model-checked with TLC; one implementation test per TLC case, compiled and interpreted", "DESIGN.md#c02")
 
+chk("C18",
+    "Storage identity and content versions of arrays, TimeSeries, SeismicRecording3C and saved files are specified per operation "
+    "(which objects may change, which are created on fresh storage, which contents coincide); seeded random histories of the real API "
+    "(construct, copy constructors, split, trim/filter/detrend/taper/re-orient, in-place sample edits, save, load) are logged with "
+    "np.shares_memory alias classes and SHA-256 digests and every step is validated by TLC (a corrupted trace must be rejected). "
+    "trim: TLC enumerates every (N, rate, start, end on the quarter-interval lattice) case with the allowed first/last sample "
+    "(ties either way) and each is replayed on TimeSeries.trim / SeismicRecording3C.trim.",
+    "Trusted: TLC; spec/Heap.tla, TraceRecordingHeap.tla, Trim.tla; SHA-256 digests as content identity, np.shares_memory as "
+    "storage identity; orientation compared modulo 360, meta by JSON content. Histories are sampled, not enumerated.",
+    "recorded traces of the real objects validated by TLC against a TLA+ heap specification; TLC-enumerated trim cases replayed", "DESIGN.md#c18")
+
 def main():
     man = dict(
         version=1,
